@@ -54,9 +54,9 @@ analysis.POST["buffers"] = report_check
 
 def roles(n, tier):
     """All assignments of roles to n tasks: each task is L(oad) q, U(nload) q or both."""
-    opts = [("L", 1), ("U", 1), ("L", 2), ("U", 2)]
+    opts = [("L", 1), ("U", 1), ("L", 2), ("U", 2), ("LU", 1)]
     if tier == "thorough":
-        opts += [("L", 3), ("U", 3), ("LU", 1)]
+        opts += [("L", 3), ("U", 3)]
     return list(itertools.product(opts, repeat=n))
 
 
@@ -108,7 +108,7 @@ def jobs(tier):
             for (cls, kw) in bvs:
                 k += 1
                 # quick: a fixed stride over the (roles x buffer variant) product; thorough: all for n<=2, stride 4 for n=3
-                stride = {1: 1, 2: 2, 3: 7} if tier == "quick" else {1: 1, 2: 1, 3: 4}
+                stride = {1: 1, 2: 3, 3: 13} if tier == "quick" else {1: 1, 2: 1, 3: 4}
                 if k % stride[n]:
                     continue
                 ts = tvars[k % len(tvars)]
